@@ -23,6 +23,10 @@ Lemma usability_reasons_ok :
 Proof. reflexivity. Qed.
 Lemma sdist_extra_default_ok : sdist_extra_default = ""%string.
 Proof. reflexivity. Qed.
+Lemma fallback_guard_ok : fallback_requires_not_gave_up = true.
+Proof. reflexivity. Qed.
+Lemma py_minor_reads_all_digits_ok : py_minor_reads_all_digits = true.
+Proof. reflexivity. Qed.
 Lemma pin_ops_ok : forall c, is_pin_clause c = true -> cop c = OEq /\ cwild c = false.
 Proof.
   intros [o v w]. unfold is_pin_clause; cbn [cop cwild].
@@ -148,7 +152,7 @@ Qed.
 Definition allfail st rq (l : list cand) : Prop :=
   forall x, In x l -> skipped st x = true \/ resolves rq x = false.
 
-Lemma scan_some st rq : forall l tried c, scan st rq tried l = Some c ->
+Lemma scan_some st rq : forall l tried c, scan st rq tried l = SFound c ->
   exists l1 l2, l = l1 ++ c :: l2 /\ allfail st rq l1 /\ skipped st c = false /\ resolves rq c = true.
 Proof.
   induction l as [|x l IH]; intros tried c H; cbn in H; [discriminate|].
@@ -167,29 +171,36 @@ Definition tried_step st (t : list version) (x : cand) : list version :=
 Definition tried_after st (tried : list version) (l : list cand) : list version :=
   fold_left (tried_step st) l tried.
 
-Lemma scan_none st rq : forall l tried, scan st rq tried l = None ->
-  allfail st rq l \/
+Lemma scan_exhausted st rq : forall l tried, scan st rq tried l = SExhausted -> allfail st rq l.
+Proof.
+  induction l as [|y l IH]; intros tried H; cbn in H.
+  - intros x [].
+  - destruct (skipped st y) eqn:Es.
+    + intros z [<-|Hz]; [auto|]. exact (IH _ H z Hz).
+    + destruct (resolves rq y) eqn:Er; [discriminate|].
+      destruct (budget_hit (budget st) (add_version (ver y) tried)) eqn:Eb; [discriminate|].
+      intros z [<-|Hz]; [auto|]. exact (IH _ H z Hz).
+Qed.
+
+Lemma scan_gave_up st rq : forall l tried, scan st rq tried l = SGaveUp ->
   exists l1 x l2, l = l1 ++ x :: l2 /\ allfail st rq (l1 ++ [x]) /\ skipped st x = false /\
                   budget_hit (budget st) (tried_after st tried (l1 ++ [x])) = true.
 Proof.
-  induction l as [|y l IH]; intros tried H; cbn in H.
-  - left. intros x [].
-  - destruct (skipped st y) eqn:Es.
-    + destruct (IH _ H) as [Hf|(l1 & x & l2 & -> & Hf & Hs & Hb)].
-      * left. intros z [<-|Hz]; auto.
-      * right. exists (y :: l1), x, l2. repeat split; auto.
-        -- intros z [<-|Hz]; auto.
-        -- cbn. unfold tried_step at 2. rewrite Es. exact Hb.
-    + destruct (resolves rq y) eqn:Er; [discriminate|].
-      destruct (budget_hit (budget st) (add_version (ver y) tried)) eqn:Eb.
-      * right. exists [], y, l. repeat split; auto.
-        -- intros z [<-|[]]; auto.
-        -- cbn. unfold tried_step. rewrite Es. exact Eb.
-      * destruct (IH _ H) as [Hf|(l1 & x & l2 & -> & Hf & Hs & Hb)].
-        -- left. intros z [<-|Hz]; auto.
-        -- right. exists (y :: l1), x, l2. repeat split; auto.
-           ++ intros z [<-|Hz]; auto.
-           ++ cbn. unfold tried_step at 2. rewrite Es. exact Hb.
+  induction l as [|y l IH]; intros tried H; cbn in H; [discriminate|].
+  destruct (skipped st y) eqn:Es.
+  - destruct (IH _ H) as (l1 & x & l2 & -> & Hf & Hs & Hb).
+    exists (y :: l1), x, l2. repeat split; auto.
+    + intros z [<-|Hz]; auto.
+    + cbn. unfold tried_step at 2. rewrite Es. exact Hb.
+  - destruct (resolves rq y) eqn:Er; [discriminate|].
+    destruct (budget_hit (budget st) (add_version (ver y) tried)) eqn:Eb.
+    + exists [], y, l. repeat split; auto.
+      * intros z [<-|[]]; auto.
+      * cbn. unfold tried_step. rewrite Es. exact Eb.
+    + destruct (IH _ H) as (l1 & x & l2 & -> & Hf & Hs & Hb).
+      exists (y :: l1), x, l2. repeat split; auto.
+      * intros z [<-|Hz]; auto.
+      * cbn. unfold tried_step at 2. rewrite Es. exact Hb.
 Qed.
 
 (* pairwise different versions (Version.__eq__ / __hash__ is equality of the key) *)
@@ -250,21 +261,27 @@ Definition good (rq : req) (c : cand) : Prop :=
 
 (* allow_prereleases of the pass that produced the answer of get_dist *)
 Definition answer_flag (st : settings) (rq : req) (cs : list cand) : bool :=
-  match attempt st rq cs (allow_pre st) with Some _ => allow_pre st | None => true end.
+  match attempt st rq cs (allow_pre st) with SFound _ => allow_pre st | _ => true end.
 
 (* the requirement pins exactly the version of c: a non-wildcard == clause that c meets *)
 Definition pinned_exactly (rq : req) (c : cand) : Prop :=
   exists cl, In cl (rspec rq) /\ cop cl = OEq /\ cwild cl = false /\ eq_match (cver cl) (ver c) = true.
 
-(* a pass ends without an answer: nothing eligible is readable, or the budget is used up
-   by that many distinct versions, each the version of an eligible candidate that failed,
-   and each at least as high as every eligible readable candidate *)
-Definition pass_exhausted (st : settings) (rq : req) (cs : list cand) (allow : bool) : Prop :=
-  (forall g, eligible st rq cs allow g -> good rq g -> False) \/
-  (exists m vs, budget st = Some m /\ (m <= Z.of_nat (List.length vs))%Z /\ vs <> [] /\ distinctV vs /\
+(* nothing eligible is readable (under the pass's flag) *)
+Definition none_good (st : settings) (rq : req) (cs : list cand) (allow : bool) : Prop :=
+  forall g, eligible st rq cs allow g -> good rq g -> False.
+
+(* the budget is used up by that many distinct versions, each the version of an eligible
+   candidate that failed, and each at least as high as every eligible readable candidate *)
+Definition budget_cut (st : settings) (rq : req) (cs : list cand) (allow : bool) : Prop :=
+  exists m vs, budget st = Some m /\ (m <= Z.of_nat (List.length vs))%Z /\ vs <> [] /\ distinctV vs /\
      forall v, In v vs ->
        (exists x, eligible st rq cs allow x /\ ~ good rq x /\ ver x = v) /\
-       (forall g, eligible st rq cs allow g -> good rq g -> vleb (ver g) v = true)).
+       (forall g, eligible st rq cs allow g -> good rq g -> vleb (ver g) v = true).
+
+(* a pass ends without an answer *)
+Definition pass_exhausted (st : settings) (rq : req) (cs : list cand) (allow : bool) : Prop :=
+  none_good st rq cs allow \/ budget_cut st rq cs allow.
 
 Lemma passes_iff rq allow c :
   passes rq allow c = true <->
@@ -311,7 +328,7 @@ Proof.
 Qed.
 
 (* ---- one pass ---- *)
-Lemma attempt_some st rq cs allow c : attempt st rq cs allow = Some c ->
+Lemma attempt_some st rq cs allow c : attempt st rq cs allow = SFound c ->
   eligible st rq cs allow c /\ good rq c /\
   forall g, eligible st rq cs allow g -> good rq g -> key_cmp g c <> Gt.
 Proof.
@@ -332,71 +349,94 @@ Proof.
       destruct (lex2 (sortkey c) (sortkey g)); cbn; congruence.
 Qed.
 
-Lemma attempt_none st rq cs allow : attempt st rq cs allow = None -> pass_exhausted st rq cs allow.
+Lemma attempt_exhausted st rq cs allow : attempt st rq cs allow = SExhausted -> none_good st rq cs allow.
+Proof.
+  unfold attempt. intros H g Hg Hgood. pose proof (scan_exhausted _ _ _ _ H) as Hf.
+  apply eligible_iff in Hg as [Hin Hsk]. apply resolves_iff in Hgood.
+  destruct (Hf g Hin); congruence.
+Qed.
+
+Lemma attempt_gave_up st rq cs allow : attempt st rq cs allow = SGaveUp -> budget_cut st rq cs allow.
 Proof.
   unfold attempt. intros H.
   pose proof (sort_sorted (filter_candidates rq allow cs)) as Hsorted.
-  destruct (scan_none _ _ _ _ H) as [Hf|(l1 & x & l2 & El & Hf & Hs & Hb)].
-  - left. intros g Hg Hgood. apply eligible_iff in Hg as [Hin Hsk]. apply resolves_iff in Hgood.
-    destruct (Hf g Hin); congruence.
-  - right. unfold budget_hit in Hb. destruct (budget st) as [m|] eqn:Em; [|discriminate].
-    rewrite budget_cmp_ok in Hb. apply Z.leb_le in Hb.
-    exists m, (tried_after st [] (l1 ++ [x])). split; [reflexivity|]. split; [exact Hb|].
-    split; [apply tried_after_last_nonempty; exact Hs|].
-    split; [apply tried_after_distinct; exact I|].
-    intros v Hv. apply tried_after_in in Hv as [[]|(z & Hz & Hzs & <-)].
-    assert (Hzin : In z (sort_candidates (filter_candidates rq allow cs))).
-    { rewrite El. replace (l1 ++ x :: l2) with ((l1 ++ [x]) ++ l2) by (rewrite <- app_assoc; reflexivity).
-      apply in_or_app; left; exact Hz. }
-    split.
-    + exists z. split; [apply eligible_iff; split; assumption|]. split; [|reflexivity].
-      rewrite <- resolves_iff. destruct (Hf z Hz); congruence.
-    + intros g Hg Hgood. apply eligible_iff in Hg as [Hin Hsk]. apply resolves_iff in Hgood.
-      rewrite El in Hin, Hsorted.
-      replace (l1 ++ x :: l2) with ((l1 ++ [x]) ++ l2) in Hin, Hsorted by (rewrite <- app_assoc; reflexivity).
-      apply in_app_or in Hin as [Hin|Hin].
-      * destruct (Hf g Hin); congruence.
-      * apply R_version. eapply sorted_app_R; eassumption.
+  destruct (scan_gave_up _ _ _ _ H) as (l1 & x & l2 & El & Hf & Hs & Hb).
+  unfold budget_hit in Hb. destruct (budget st) as [m|] eqn:Em; [|discriminate].
+  rewrite budget_cmp_ok in Hb. apply Z.leb_le in Hb.
+  exists m, (tried_after st [] (l1 ++ [x])). split; [exact Em|]. split; [exact Hb|].
+  split; [apply tried_after_last_nonempty; exact Hs|].
+  split; [apply tried_after_distinct; exact I|].
+  intros v Hv. apply tried_after_in in Hv as [[]|(z & Hz & Hzs & <-)].
+  assert (Hzin : In z (sort_candidates (filter_candidates rq allow cs))).
+  { rewrite El. replace (l1 ++ x :: l2) with ((l1 ++ [x]) ++ l2) by (rewrite <- app_assoc; reflexivity).
+    apply in_or_app; left; exact Hz. }
+  split.
+  - exists z. split; [apply eligible_iff; split; assumption|]. split; [|reflexivity].
+    rewrite <- resolves_iff. destruct (Hf z Hz); congruence.
+  - intros g Hg Hgood. apply eligible_iff in Hg as [Hin Hsk]. apply resolves_iff in Hgood.
+    rewrite El in Hin, Hsorted.
+    replace (l1 ++ x :: l2) with ((l1 ++ [x]) ++ l2) in Hin, Hsorted by (rewrite <- app_assoc; reflexivity).
+    apply in_app_or in Hin as [Hin|Hin].
+    + destruct (Hf g Hin); congruence.
+    + apply R_version. eapply sorted_app_R; eassumption.
+Qed.
+
+Lemma attempt_not_found st rq cs allow : (forall c, attempt st rq cs allow <> SFound c) ->
+  pass_exhausted st rq cs allow.
+Proof.
+  intros H. destruct (attempt st rq cs allow) as [c| |] eqn:E.
+  - exfalso. apply (H c). reflexivity.
+  - left. apply attempt_exhausted; exact E.
+  - right. apply attempt_gave_up; exact E.
 Qed.
 
 (* ---- do_get_candidate is the fixed point of the source's recursion ---- *)
+Lemma do_get_candidate_forced st rq cs :
+  do_get_candidate st rq cs true =
+  match attempt st rq cs true with SFound c => Found c | _ => NoCandidate end.
+Proof.
+  unfold do_get_candidate. cbn [orb negb]. rewrite andb_false_r. cbn [andb].
+  destruct (attempt st rq cs true); reflexivity.
+Qed.
+
 Lemma do_get_candidate_unfold st rq cs :
   do_get_candidate st rq cs false =
   match attempt st rq cs (allow_pre st) with
-  | Some c => Found c
-  | None => if fallback_cond rq cs && negb (allow_pre st)
-            then do_get_candidate st rq cs true else NoCandidate
+  | SFound c => Found c
+  | r => if fallback_cond rq cs && negb (allow_pre st) && negb (gave_up r)
+         then do_get_candidate st rq cs true else NoCandidate
   end.
 Proof.
-  unfold do_get_candidate. cbn [orb]. destruct (attempt st rq cs (allow_pre st)); [reflexivity|].
-  destruct (fallback_cond rq cs && negb (allow_pre st)); [|reflexivity].
-  rewrite andb_false_r. reflexivity.
+  rewrite do_get_candidate_forced. unfold do_get_candidate. cbn [orb]. rewrite fallback_guard_ok. cbn [andb].
+  destruct (attempt st rq cs (allow_pre st)); reflexivity.
 Qed.
 
 Lemma get_dist_cases st rq cs :
-  (exists c, attempt st rq cs (allow_pre st) = Some c /\ get_dist st rq cs = Found c /\
+  (exists c, attempt st rq cs (allow_pre st) = SFound c /\ get_dist st rq cs = Found c /\
              answer_flag st rq cs = allow_pre st) \/
-  (attempt st rq cs (allow_pre st) = None /\ fallback_cond rq cs = true /\ allow_pre st = false /\
+  (attempt st rq cs (allow_pre st) = SExhausted /\ fallback_cond rq cs = true /\ allow_pre st = false /\
    answer_flag st rq cs = true /\
-   get_dist st rq cs = match attempt st rq cs true with Some c => Found c | None => NoCandidate end) \/
-  (attempt st rq cs (allow_pre st) = None /\ (fallback_cond rq cs = false \/ allow_pre st = true) /\
+   get_dist st rq cs = match attempt st rq cs true with SFound c => Found c | _ => NoCandidate end) \/
+  ((forall c, attempt st rq cs (allow_pre st) <> SFound c) /\
+   (attempt st rq cs (allow_pre st) = SGaveUp \/ fallback_cond rq cs = false \/ allow_pre st = true) /\
    get_dist st rq cs = NoCandidate).
 Proof.
-  unfold get_dist, do_get_candidate, answer_flag. cbn [orb].
-  destruct (attempt st rq cs (allow_pre st)) as [c|] eqn:E1.
+  unfold get_dist. rewrite do_get_candidate_unfold, do_get_candidate_forced. unfold answer_flag.
+  destruct (attempt st rq cs (allow_pre st)) as [c| |] eqn:E1.
   - left. exists c. auto.
   - right. destruct (fallback_cond rq cs) eqn:Ef, (allow_pre st) eqn:Ea; cbn.
-    + right. auto.
+    + right. split; [discriminate|]. auto.
     + left. auto 6.
-    + right. auto.
-    + right. auto.
+    + right. split; [discriminate|]. auto.
+    + right. split; [discriminate|]. auto.
+  - right; right. rewrite andb_false_r. split; [discriminate|]. auto.
 Qed.
 
 (* ------------------------------------------------------------------------------------ *)
 (* The property theorems                                                                 *)
 
 Lemma found_attempt st rq cs c : get_dist st rq cs = Found c ->
-  attempt st rq cs (answer_flag st rq cs) = Some c.
+  attempt st rq cs (answer_flag st rq cs) = SFound c.
 Proof.
   intros H. destruct (get_dist_cases st rq cs) as [(c' & E1 & E2 & E3)|[(E1 & Ef & Ea & E3 & E2)|(E1 & _ & E2)]].
   - rewrite E3, E1. congruence.
@@ -431,7 +471,7 @@ Lemma select_newest_configured st rq cs c : get_dist st rq cs = Found c ->
   forall g, eligible st rq cs (allow_pre st) g -> good rq g -> vleb (ver g) (ver c) = true.
 Proof.
   intros H g Hg Hgood. eapply select_newest; eauto.
-  unfold answer_flag. destruct (attempt st rq cs (allow_pre st)); [exact Hg|].
+  unfold answer_flag. destruct (attempt st rq cs (allow_pre st)); [exact Hg| |];
   eapply eligible_mono; exact Hg.
 Qed.
 
@@ -489,19 +529,9 @@ Proof.
 Qed.
 
 (* the property's own reading: a pre-release only if enabled, pinned exactly, or no final
-   version could satisfy the request.  It holds up to the downgrade budget: *)
-Definition finals_cut_by_budget (st : settings) (rq : req) (cs : list cand) : Prop :=
-  exists m vs, budget st = Some m /\ (m <= Z.of_nat (List.length vs))%Z /\ vs <> [] /\ distinctV vs /\
-     forall v, In v vs ->
-       (exists x, eligible st rq cs false x /\ ~ good rq x /\ ver x = v) /\
-       (forall g, eligible st rq cs false g -> good rq g -> vleb (ver g) v = true).
-
+   version could satisfy the request *)
 Definition nothing_but_prereleases (st : settings) (rq : req) (cs : list cand) : Prop :=
   forall g, eligible st rq cs true g -> good rq g -> is_prerelease (ver g) = true.
-
-Definition prerelease_declarative_full_statement : Prop :=
-  forall st rq cs c, get_dist st rq cs = Found c -> is_prerelease (ver c) = true ->
-  allow_pre st = true \/ pinned_exactly rq c \/ nothing_but_prereleases st rq cs.
 
 Lemma has_equality_pins rq st cs c : has_equality rq = true ->
   eligible st rq cs (answer_flag st rq cs) c -> pinned_exactly rq c.
@@ -514,12 +544,11 @@ Proof.
   rewrite Hop, Hw in Hall. exact Hall.
 Qed.
 
-(* what is missing from the full statement: the fourth disjunct (the first pass gave up
-   because `budget` distinct final versions failed, although lower finals are readable) *)
-Lemma prerelease_declarative_partial st rq cs c :
+(* full strength since the fallback pass is skipped when the first pass gave up on the budget
+   (obligation fallback_guard_ok on the T1-read condition) *)
+Lemma prerelease_declarative st rq cs c :
   get_dist st rq cs = Found c -> is_prerelease (ver c) = true ->
-  allow_pre st = true \/ pinned_exactly rq c \/ nothing_but_prereleases st rq cs \/
-  finals_cut_by_budget st rq cs.
+  allow_pre st = true \/ pinned_exactly rq c \/ nothing_but_prereleases st rq cs.
 Proof.
   intros H Hp. destruct (has_equality rq) eqn:Heq.
   { right; left. eapply has_equality_pins; eauto. apply (select_sound _ _ _ _ H). }
@@ -528,34 +557,28 @@ Proof.
     pose proof (select_sound _ _ _ _ H) as [(_ & _ & Hspec & _) _].
     unfold spec_contains in Hspec. rewrite Hp, Heq, E3 in Hspec. cbn in Hspec.
     left. destruct (allow_pre st); [reflexivity|discriminate].
-  - rewrite Ea in E1. apply attempt_none in E1 as [Hnone|Hcut].
-    + right; right; left. intros g Hg Hgood.
-      destruct (is_prerelease (ver g)) eqn:Eg; [reflexivity|exfalso].
-      apply (Hnone g); [|exact Hgood]. destruct Hg as (G1 & G2 & G3 & G4).
-      repeat split; auto. unfold spec_contains in *. rewrite Heq, Eg. cbn.
-      apply andb_true_iff in G3 as [_ G3]. exact G3.
-    + right; right; right. exact Hcut.
+  - rewrite Ea in E1. apply attempt_exhausted in E1.
+    right; right. intros g Hg Hgood.
+    destruct (is_prerelease (ver g)) eqn:Eg; [reflexivity|exfalso].
+    apply (E1 g); [|exact Hgood]. destruct Hg as (G1 & G2 & G3 & G4).
+    repeat split; auto. unfold spec_contains in *. rewrite Heq, Eg. cbn.
+    apply andb_true_iff in G3 as [_ G3]. exact G3.
   - congruence.
-Qed.
-
-Lemma prerelease_declarative_unbounded st rq cs c :
-  budget st = None -> get_dist st rq cs = Found c -> is_prerelease (ver c) = true ->
-  allow_pre st = true \/ pinned_exactly rq c \/ nothing_but_prereleases st rq cs.
-Proof.
-  intros Hb H Hp. destruct (prerelease_declarative_partial _ _ _ _ H Hp) as [?|[?|[?|(m & vs & Hm & _)]]]; auto.
-  congruence.
 Qed.
 
 Lemma select_complete st rq cs : get_dist st rq cs = NoCandidate ->
   pass_exhausted st rq cs (allow_pre st) /\
-  (fallback_cond rq cs = true -> pass_exhausted st rq cs true).
+  (fallback_cond rq cs = true -> pass_exhausted st rq cs true \/ budget_cut st rq cs (allow_pre st)).
 Proof.
   intros H. destruct (get_dist_cases st rq cs) as [(c' & E1 & E2 & E3)|[(E1 & Ef & Ea & E3 & E2)|(E1 & Hor & E2)]].
   - congruence.
-  - split; [apply attempt_none; exact E1|]. intros _.
-    rewrite E2 in H. destruct (attempt st rq cs true) eqn:E; [discriminate|]. apply attempt_none; exact E.
-  - split; [apply attempt_none; exact E1|]. intros Hf.
-    destruct Hor as [Hor|Hor]; [congruence|]. rewrite Hor in E1. apply attempt_none; exact E1.
+  - split; [left; apply attempt_exhausted; exact E1|]. intros _. left.
+    rewrite E2 in H. apply attempt_not_found. intros c Hc. rewrite Hc in H. discriminate.
+  - split; [apply attempt_not_found; exact E1|]. intros Hf.
+    destruct Hor as [Hg|[Hor|Hor]].
+    + right. apply attempt_gave_up; exact Hg.
+    + congruence.
+    + left. rewrite <- Hor. apply attempt_not_found; exact E1.
 Qed.
 
 (* liveness: with an unlimited budget an eligible readable candidate is always found *)
@@ -563,7 +586,7 @@ Lemma select_live st rq cs g : budget st = None ->
   eligible st rq cs (allow_pre st) g -> good rq g -> exists c, get_dist st rq cs = Found c.
 Proof.
   intros Hb Hg Hgood. destruct (get_dist st rq cs) eqn:E; [eexists; reflexivity|exfalso].
-  apply select_complete in E as [[Hnone|(m & vs & Hm & _)] _]; [eauto|congruence].
+  apply select_complete in E as [[Hnone|(m & vs & Hm & _)] _]; [exact (Hnone g Hg Hgood)|congruence].
 Qed.
 
 (* ------------------------------------------------------------------------------------ *)
@@ -584,20 +607,17 @@ Definition w31a := mk "x-3.1a1-py3-none-any.whl" (v_ [3%N; 1%N] (Some (PA, 1%N))
 Definition st_b1 := mkSet false true (Some 1%Z).
 Definition st_unl := mkSet false true None.
 
-(* budget 1: 3.0 is unreadable, the first pass gives up, the fallback pass (the requirement
-   mentions a pre-release) picks 3.1a1 although the final 2.0 is readable and satisfies *)
-Lemma prerelease_declarative_refuted : ~ prerelease_declarative_full_statement.
+(* budget 1: 3.0 is unreadable, the first pass gives up; the fallback pass is not entered although
+   the requirement mentions a pre-release, because the final 2.0 may still satisfy (the former
+   witness of the refuted strict reading; corpus/C03/prerelease-after-budget.json) *)
+Example ex_no_prerelease_after_budget : get_dist st_b1 rq_ge_pre [w30; w20; w31a] = NoCandidate.
+Proof. vm_compute. reflexivity. Qed.
+Example ex_declarative_hyp :
+  get_dist st_unl rq_ge_pre [w30; w31a] = Found w31a /\ is_prerelease (ver w31a) = true /\
+  nothing_but_prereleases st_unl rq_ge_pre [w30; w31a].
 Proof.
-  intros H. specialize (H st_b1 rq_ge_pre [w30; w20; w31a] w31a).
-  assert (E : get_dist st_b1 rq_ge_pre [w30; w20; w31a] = Found w31a) by (vm_compute; reflexivity).
-  destruct (H E eq_refl) as [Ha|[(cl & Hin & Hop & _)|Hn]].
-  - discriminate Ha.
-  - destruct Hin as [<-|[]]. discriminate Hop.
-  - specialize (Hn w20). assert (Hpre : is_prerelease (ver w20) = true).
-    { apply Hn.
-      - repeat split; try (vm_compute; reflexivity). right; left; reflexivity.
-      - split; vm_compute; reflexivity. }
-    discriminate Hpre.
+  split; [vm_compute; reflexivity|]. split; [reflexivity|].
+  intros g (Hin & _) (Hr & _). destruct Hin as [<-|[<-|[]]]; [discriminate Hr|reflexivity].
 Qed.
 
 Example ex_found_newest : get_dist st_unl rq_any [s20; w30; w20; w31a] = Found w20.
